@@ -108,7 +108,7 @@ Section Link.
   (* _hidden_boot_file_length *)
   Lemma bp_hidden_len_view i sc : bp_placed s i ->
     bp_hidden_len w (rba_of s i) sc =
-    if mem i (bbits s) && (64 <=? len_of i tbl) then len_of i tbl else sc * 512.
+    if mem i (bbits s) && (64 <=? len_of i tbl) then (len_of i tbl, true) else (sc * 512, false).
   Proof.
     intros Hi. unfold bp_hidden_len. rewrite (bp_tabs_at i Hi). unfold tbl.
     destruct (bp_rba_spec s i HI Hi) as (_ & _ & Hb & Hsp).
@@ -119,7 +119,7 @@ Section Link.
     destruct (mem i (bbits s)); [|reflexivity]. cbn [bt_pvd bt_ext bt_len bt_cover andb].
     rewrite !Z.eqb_refl, (bp_csum_ok_refl _ (proj1 Hn)).
     destruct (rba_of s i * C + len_of i (linodes (bl s)) <=? lspace (bl s) * C) eqn:Ef; [|unfold C in *; lia].
-    cbn [Z.eqb andb]. rewrite !andb_true_r. reflexivity.
+    cbn [Z.eqb andb]. rewrite !andb_true_r. destruct (64 <=? len_of i (linodes (bl s))); reflexivity.
   Qed.
 
   Definition bp_hsrc (t : itable) : list (nat * (Z * Z)) := map (fun e => (fst e, (rba_of s (fst e), snd e))) t.
